@@ -294,7 +294,7 @@ RealResult runReal(const Config &cfg, const RealInput &in) {
 
   // sources (process-global state: environment, files - only touched when a case uses them, so that the
   // plain argv path can be run from several threads at once)
-  const bool useSources = in.haveFile || in.haveEnv;
+  const bool useSources = (in.haveFile || in.haveEnv) && !in.prepared;
   std::vector<std::string> argvWords = in.argv;
   if (argvWords.empty()) argvWords.push_back("prog");
   const std::string prog = baseName(argvWords[0]);
